@@ -68,7 +68,15 @@ func (g *c18Gen) literal() string {
 }
 
 func (g *c18Gen) width(renderLen int) string {
-	switch g.n(0, 19, "wcls") {
+	switch g.n(0, 21, "wcls") {
+	case 20:
+		// redundant leading zeros: a long width text with a small value
+		g.labels["zero-pad"] = true
+		g.labels["long-width-text"] = true
+		return strings.Repeat("0", g.n(2, 24, "nzeros")) + fmt.Sprint(g.n(0, renderLen+4, "zw"))
+	case 21:
+		g.labels["long-width-text"] = true
+		return rapid.SampledFrom([]string{"0000000", "00000000000000000065536", "0000000065537", "000000000000000000000000000000003", "0065536"}).Draw(g.t, "longw")
 	case 0, 1, 2, 3:
 		return ""
 	case 4:
@@ -194,7 +202,7 @@ func genC18(t *rapid.T) (*DCase, map[string]bool) {
 
 func TestC18(t *testing.T) {
 	rec := start(t, "C18", "exploration",
-		"one printf call per program between two print statements: format strings assembled from literal segments (all bytes but %, the quotes and the backslash; \\n and \\t escapes), directives %[width]{s,f,v}, %%, unknown directives, a dangling % or width at the end; widths from {none, 0, 1, len-1, len, len+1, 10, 007, 0(len+2), -1, -len, -(len+3), 4096, 65536, -65536, 65537, -65537, 10^6, a 25-digit number, a lone '-', random}; arguments of every kind (strings incl. multi-byte, numbers incl. -0 / 1e21 / 1e-7, booleans, null, arrays, objects), fitting, of the wrong kind, missing, surplus; a first argument that is not a string; no arguments. Expected stdout bytes (or RuntimeError with nothing of this printf written, earlier output kept) from refjq's formatter (DESIGN.md 4.7). Non-trivial: >= 2 directives, a width within +-1 of the rendering length, or an error case. distinct = distinct program.")
+		"one printf call per program between two print statements: format strings assembled from literal segments (all bytes but %, the quotes and the backslash; \\n and \\t escapes), directives %[width]{s,f,v}, %%, unknown directives, a dangling % or width at the end; widths from {none, 0, 1, len-1, len, len+1, 10, 007, 0(len+2), 2-24 redundant zeros followed by a small width, long zero-prefixed texts at the limit, -1, -len, -(len+3), 4096, 65536, -65536, 65537, -65537, 10^6, a 25-digit number, a lone '-', random}; arguments of every kind (strings incl. multi-byte, numbers incl. -0 / 1e21 / 1e-7, booleans, null, arrays, objects), fitting, of the wrong kind, missing, surplus; a first argument that is not a string; no arguments. Expected stdout bytes (or RuntimeError with nothing of this printf written, earlier output kept) from refjq's formatter (DESIGN.md 4.7). Non-trivial: >= 2 directives, a width within +-1 of the rendering length, or an error case. distinct = distinct program.")
 	defer rec.Finish()
 	rec.Assume("refjq's formatter (DESIGN.md 4.7); a width on %% and a negative width written with a leading zero are unspecified (discarded)")
 	rec.Replayer("printf", replayDiff(false))
